@@ -282,4 +282,64 @@ theorem ops_mismatch_never_ok (P : Prims) (k : VKey) (o : Ops) (s : Sig) (chunks
   · rw [h]
     simp [Except.map]
 
+/-! ## messages with several signatures -/
+
+theorem collectSlots_get : ∀ (l : List (Except Guard (Option (Byte × Bytes)))) (xs : List (Option (Byte × Bytes))),
+    collectSlots l = Except.ok xs → ∀ (i : Nat) (x : Option (Byte × Bytes)), xs[i]? = some x → l[i]? = some (Except.ok x) := by
+  intro l
+  induction l with
+  | nil => intro xs h i x hx; simp [collectSlots] at h; subst h; simp at hx
+  | cons a t ih =>
+    intro xs h i x hx
+    cases a with
+    | error g => simp [collectSlots] at h
+    | ok y =>
+      simp only [collectSlots] at h
+      cases ht : collectSlots t with
+      | error g => simp [ht] at h
+      | ok ys =>
+        simp only [ht, Except.ok.injEq] at h
+        subst h
+        cases i with
+        | zero => simp at hx; subst hx; simp
+        | succ j =>
+          simp only [List.getElem?_cons_succ] at hx ⊢
+          exact ih ys ht j x hx
+
+/-- slot `i` of a message is what `inlinePre` computes from signature `i` alone -/
+theorem inlineSlotsPre_get (hk : Byte → Bool) (sigs : List MsgSig) (chunks : List Bytes)
+    (slots : List (Option (Byte × Bytes))) (h : inlineSlotsPre hk sigs chunks = .ok slots)
+    (i : Nat) (m : MsgSig) (x : Option (Byte × Bytes)) (hm : sigs[i]? = some m) (hx : slots[i]? = some x) :
+    inlinePre hk m.ops m.sig chunks = .ok x := by
+  unfold inlineSlotsPre at h
+  simp only at h
+  split at h
+  · cases h
+  · have := collectSlots_get _ slots h i x hx
+    simp only [List.getElem?_map, hm, Option.map_some, Option.some.injEq] at this
+    exact this
+
+/-- a successful `verify_nested_explicit(i, key)` is a successful single-signature verification of
+signature `i` with its own header -/
+theorem verifyMessageAt_ok (P : Prims) (k : VKey) (sigs : List MsgSig) (chunks : List Bytes) (i : Nat)
+    (h : verifyMessageAt P k sigs chunks i = .ok) :
+    ∃ m, sigs[i]? = some m ∧ verifyMessage P k m.ops m.sig chunks = .ok := by
+  unfold verifyMessageAt at h
+  cases hs : inlineSlotsPre P.hashKnown sigs chunks with
+  | error g => simp [hs] at h
+  | ok slots =>
+    simp only [hs] at h
+    cases hm : sigs[i]? with
+    | none => simp [hm] at h
+    | some m =>
+      cases hx : slots[i]? with
+      | none => simp [hm, hx] at h
+      | some x =>
+        simp only [hm, hx] at h
+        refine ⟨m, rfl, ?_⟩
+        have hp := inlineSlotsPre_get _ sigs chunks slots hs i m x hm hx
+        unfold verifyMessage inlineSlot
+        rw [hp]
+        simpa [Except.map] using h
+
 end Rpgp.Sound
